@@ -56,7 +56,7 @@
 // affected hop or full path, assign a penalty, and support deduplication and decay.
 
 use std::{
-    collections::{HashMap, VecDeque, hash_map},
+    collections::{HashMap, HashSet, VecDeque, hash_map},
     sync::{Arc, Mutex, Weak},
     time::{Duration, SystemTime},
 };
@@ -626,6 +626,20 @@ impl PathIssueManager {
             self.pop_front();
         }
 
+        // An issue that is reported again leaves its previous queue entry behind, which is only
+        // skipped once it reaches the front. Drop such stale entries when they start to
+        // outnumber the cache, so the queue stays bounded as well: keep one entry per cached issue.
+        if self.fifo_issues.len() >= self.max_entries.saturating_mul(2) {
+            let cache = &self.cache;
+            let mut queued = HashSet::with_capacity(cache.len());
+            self.fifo_issues.retain(|(issue_id, timestamp)| {
+                cache
+                    .get(issue_id)
+                    .is_some_and(|cached| cached.timestamp == *timestamp)
+                    && queued.insert(*issue_id)
+            });
+        }
+
         // Insert issue
         self.fifo_issues.push_back((id, marker.timestamp)); // Store timestamp for matching on removal
         self.cache.insert(id, marker);
@@ -653,23 +667,20 @@ impl PathIssueManager {
     }
 
     /// Pops the oldest issue from the cache.
+    ///
+    /// Queue entries of issues that were reported again since (or were already evicted through
+    /// an identical entry) are stale and skipped.
     fn pop_front(&mut self) -> Option<IssueMarker> {
-        let (issue_id, timestamp) = self.fifo_issues.pop_front()?;
-
-        match self.cache.entry(issue_id) {
-            hash_map::Entry::Occupied(occupied_entry) => {
+        while let Some((issue_id, timestamp)) = self.fifo_issues.pop_front() {
+            if let hash_map::Entry::Occupied(occupied_entry) = self.cache.entry(issue_id) {
                 // Only remove if timestamps match
                 if occupied_entry.get().timestamp == timestamp {
-                    Some(occupied_entry.remove())
-                } else {
-                    None
+                    return Some(occupied_entry.remove());
                 }
             }
-            hash_map::Entry::Vacant(_) => {
-                debug_assert!(false, "Bad cache: issue ID not found in cache");
-                None
-            }
         }
+
+        None
     }
 }
 
